@@ -46,7 +46,9 @@ CHECKS = {
             'Theorems for every field of characteristic 0 and every finite sequence: Mean/Variance/Cov2/Counter/Min/Max runs equal the batch '
             'statistic, with n, sum, rms, mean read-outs, the n=1 error branch and invariance under permutation of arrival order. '
             'The model definitions are the ones the driver executes against the real classes on generated sequences each run.',
-            'The floating-point error clause is checked as a test (float_probe against the exact rational batch statistic), not proved.',
+            'The floating-point clause: for the MEAN it is proved under the standard model of rounding (C05Float.mean_float_error, 6*n*u*max|x| '
+            'for 8*n*u <= 1); for variance/covariance it is checked as a test (float_probe against the exact rational batch statistic). The '
+            'update expression of Mean is additionally translated from the current source and proved equal to the model by ring on every run.',
             'DESIGN.md §6 C05'),
     'C06': ('Lean 4 proof (pooled-merge algebra, induction over merge trees) over the executable model; model-vs-code correspondence on random partitions and merge orders',
             'Theorems: merge (run xs) (run ys) = run (xs ++ ys) as states for Counter/Min/Max/Mean/Variance/Cov2 over every field of '
@@ -97,14 +99,15 @@ CHECKS = {
             'Theorems for every well-shaped sequence and component: array Mean/Variance/Min/Max/RunningMean/RunningVariance states (and merges, '
             'merge trees) project to the scalar accumulator run on that component; Covariance entry (i,j) is the pair accumulator on '
             'components i,j, symmetric, diagonal = Variance; changing another component changes nothing.',
-            'The vectorised np.where form of P² is compared with per-component scalar estimators on the implementation (components in '
-            'different branches) and in lock-step with the scalar model; it has no separate vector model.',
+            'The vectorised np.where form of P² has its own model (Model/P2Vec.lean), proved equal per component to the scalar update '
+            '(C12P2.run_col) and compared bit-for-bit in lock-step with the array estimator.',
             'DESIGN.md §6 C12'),
     'C13': ('Lean 4 proof: counter invariants over all reachable states of the parallel and serial machines; additivity by a shift '
             'bisimulation; exact emulation of the "{:.2%}" string',
             'Theorems: in every reachable state processed = p0 + results taken and yielded = y0 + values handed over (so yielded <= processed '
             'in parallel mode), for every schedule and consumer; a stream started with counters (p0,y0) behaves exactly like one started '
-            'at (0,0) shifted by (p0,y0).',
+            'at (0,0) shifted by (p0,y0); for several streams of ONE stage alive at once (Model/Stage.lean) every stream behaves as if alone '
+            'and the shared counters are p0 + sum of results taken, y0 + sum of values handed over (C13Stage.*).',
             'The string formatting is modelled (binary64 division and multiplication, round-half-even on the exact value) and compared, not proved.',
             'DESIGN.md §6 C13'),
     'C14': ('Lean 4 proof: digitize characterisation, fold invariants of BinSorter for an arbitrary per-bin accumulator, DynamicBinSorter on '
